@@ -279,10 +279,10 @@ Print Assumptions class_pair_shadowing_example.
    means this definition — the latest one preceding the reference — until the next definition of `n`; other
    names are untouched.  The walk `elab` (shared by interp_fea and compile_mini) and the harness's source-side
    interpreter both resolve references this way, independently of fea-rs. *)
-Theorem class_reference_resolves_to_latest_definition : forall incl gm delp eskip st n items c,
+Theorem class_reference_resolves_to_latest_definition : forall incl gm delp eskip refc mixs st n items c,
   resolve_items incl gm (es_classes st) items = Some c ->
   exists st',
-    elab_top incl gm delp eskip st (TClassDef n items) = Some st'
+    elab_top incl gm delp eskip refc mixs st (TClassDef n items) = Some st'
     /\ elab_lstmt incl gm delp eskip st (LClassDef n items) = Some st'
     /\ resolve_items incl gm (es_classes st') [IRef n] = Some c
     /\ forall n', n' <> n ->
